@@ -246,7 +246,10 @@ static void c15_batch(long idx, long n, uint64_t seed) {
         for (auto& a : anomalies) {
             std::string key = std::get<0>(a);
             if (primary && key.find("after-late-response-of-timed-out-request") == std::string::npos) key += ":in-batch-with-late-response-mixup";
-            else if (serverClosed && (key == "c15:request-never-sent-and-never-settled" || key.rfind("c15:answered-but-not-fulfilled:", 0) == 0)) key += ":in-batch-with-server-closed-connections";
+            // (a connection object whose socket the server closed keeps its parser state and is connected again for a later request:
+            // never-sent / never-settled requests and responses delivered to the wrong request are all symptoms of that one finding;
+            // a promise settled twice is not)
+            else if (serverClosed && key.rfind("c15:promise-settled-twice", 0) != 0) key += ":in-batch-with-server-closed-connections";
             viol(key, std::get<1>(a), std::get<2>(a));
         }
         if (srv.peak.load() > maxConn) viol("c15:too-many-connections", cfg + ": " + std::to_string(srv.peak.load()) + " simultaneous connections", Json().num("i", idx).str("config", cfg).num("peak", srv.peak.load()).done());
